@@ -425,4 +425,160 @@ theorem scan_same {K : Kind} {is : List Instruction} (o : Option Str) (ko : Str)
   congr 1 <;> omega
 
 
+/-! ### Part 5: induction over the tree -/
+
+/-- else-lines are recorded by the `if` scanner only -/
+def midK (K : Kind) (l : List Nat) : List Nat := if K = .kIf then l else []
+
+theorem midK_append (K : Kind) (a b : List Nat) : midK K (a ++ b) = midK K a ++ midK K b := by
+  unfold midK; split <;> simp
+
+theorem midK_nil (K : Kind) : midK K [] = [] := by unfold midK; split <;> rfl
+
+/-- absolute positions of the `elif` lines of a chain of alternatives starting at `off` -/
+def elifAbs (off : Nat) : Elifs → List Nat
+  | .nil => []
+  | .cons _ _ b rest => off :: elifAbs (off + 1 + b.flatten.length) rest
+
+/-- a block statement of kind `K'` met by the scanner of kind `K` -/
+theorem scan_block_stmt {K : Kind} {is : List Instruction} (K' : Kind) (o : Option Str) (ko : Str)
+    (a : List Str) (ke : Str) (inner : List ScriptInstr) (mids : Nat → List Nat)
+    (ho : K'.isOpen ko = true) (he : K'.isEnd ke = true) (hK' : K' ≠ .kFn)
+    (hin : ScanP K is inner mids) (hm : K ≠ K' → mids = fun _ => []) :
+    ScanP K is (mkInstr o ko a :: (inner ++ [mkInstr none ke []])) (fun _ => []) := by
+  have h1 := cls_open K K' ko ho
+  have h2 := cls_end K K' ke he
+  by_cases h : K = K'
+  · subst h
+    simp only [if_true] at h1 h2
+    exact scan_same o ko a ke inner mids h1 (allowRecursive_of_ne_fn K hK') h2 hin
+  · simp only [if_neg h] at h1 h2
+    have := hm h
+    subst this
+    exact scan_other o ko a ke inner h1 h2 hin
+
+theorem scan_midword {K : Kind} {is : List Instruction} (o : Option Str) (k : Str) (a : List Str)
+    (h : (isElifKw k || isElseKw k) = true) : ScanP K is [mkInstr o k a] (fun off => midK K [off]) := by
+  have h1 := cls_mid K k h
+  by_cases hK : K = .kIf
+  · simp only [if_pos hK] at h1
+    exact (scan_mid o k a h1).congr (by intro off; simp [midK, hK])
+  · simp only [if_neg hK] at h1
+    exact (scan_plain o k a h1).congr (by intro off; simp [midK, hK])
+
+/-- the else-lines seen while scanning the inside of an `if` chain that starts at `off - 1` -/
+def ifMids (K : Kind) (bodyLen elifsLen : Nat) (fe : Nat → List Nat) (kwElse : Option Str) :
+    Nat → List Nat :=
+  fun off => midK K (fe (off + bodyLen) ++
+    match kwElse with
+    | some _ => [off + bodyLen + elifsLen]
+    | none => [])
+
+/-- the `else` line and the else-body, if present -/
+def elsePart (kwElse : Option Str) (elseL : List ScriptInstr) : List ScriptInstr :=
+  match kwElse with
+  | some k => mkInstr none k [] :: elseL
+  | none => []
+
+theorem scan_ifInner {K : Kind} {is : List Instruction} (bodyL elifsL : List ScriptInstr)
+    (kwElse : Option Str) (elseL : List ScriptInstr) (fe : Nat → List Nat)
+    (hElse : ∀ k, kwElse = some k → isElseKw k = true)
+    (hb : ScanP K is bodyL (fun _ => [])) (he : ScanP K is elifsL (fun off => midK K (fe off)))
+    (hel : kwElse.isSome = true → ScanP K is elseL (fun _ => [])) :
+    ScanP K is (bodyL ++ elifsL ++ elsePart kwElse elseL)
+      (ifMids K bodyL.length elifsL.length fe kwElse) := by
+  unfold elsePart
+  cases kwElse with
+  | none =>
+    refine (scan_append (scan_append hb he) (scan_nil K is)).congr ?_
+    intro off
+    simp [ifMids]
+  | some k =>
+    have h1 : ScanP K is ([mkInstr none k []] ++ elseL) _ :=
+      scan_append (scan_midword none k [] (by simp [hElse k rfl])) (hel rfl)
+    refine (scan_append (scan_append hb he) h1).congr ?_
+    intro off
+    simp [ifMids, midK_append, Nat.add_assoc]
+
+theorem ifMids_other {K : Kind} (h : K ≠ .kIf) (bl el : Nat) (fe : Nat → List Nat) (kwElse : Option Str) :
+    ifMids K bl el fe kwElse = fun _ => [] := by
+  funext off
+  simp [ifMids, midK, h]
+
+mutual
+  theorem scanStmt (K : Kind) (is : List Instruction) :
+      (s : Stmt) → s.wf = true → s.noFn = true → ScanP K is s.flatten (fun _ => [])
+    | .line l, hw, _ => by
+      simp only [Stmt.flatten]
+      exact scan_plain _ _ _ (cls_plain K _ (by simpa [Stmt.wf] using hw))
+    | .ret kw v, hw, _ => by
+      simp only [Stmt.flatten]
+      exact scan_plain _ _ _ (cls_plain K _ (ret_plain kw (by simpa [Stmt.wf] using hw)))
+    | .whileLoop kw cond body kwEnd, hw, hn => by
+      simp only [Stmt.wf, Bool.and_eq_true] at hw
+      simp only [Stmt.noFn] at hn
+      have hb := scanBlock K is body hw.1.2 hn
+      simp only [Stmt.flatten]
+      exact scan_block_stmt .kWhile _ _ _ _ _ _ hw.1.1 hw.2 (by decide) hb (fun _ => rfl)
+    | .forIn kw v handle body kwEnd, hw, hn => by
+      simp only [Stmt.wf, Bool.and_eq_true] at hw
+      simp only [Stmt.noFn] at hn
+      have hb := scanBlock K is body hw.1.2 hn
+      simp only [Stmt.flatten]
+      exact scan_block_stmt .kFor _ _ _ _ _ _ hw.1.1 hw.2 (by decide) hb (fun _ => rfl)
+    | .fnDef kw isSc name body kwEnd, _, hn => by
+      simp [Stmt.noFn] at hn
+    | .ifChain kwIf cond body elifs kwElse elseBody kwEnd, hw, hn => by
+      simp only [Stmt.wf, Bool.and_eq_true] at hw
+      simp only [Stmt.noFn, Bool.and_eq_true] at hn
+      obtain ⟨⟨⟨⟨hIf, hbw⟩, hew⟩, helse⟩, hEnd⟩ := hw
+      have hb := scanBlock K is body hbw hn.1.1
+      have he := scanElifs K is elifs hew hn.1.2
+      have hel : kwElse.isSome = true → ScanP K is elseBody.flatten (fun _ => []) := by
+        intro hs
+        cases kwElse with
+        | none => cases hs
+        | some k =>
+          simp only [Bool.and_eq_true] at helse
+          exact scanBlock K is elseBody helse.2 hn.2
+      have hElse : ∀ k, kwElse = some k → isElseKw k = true := by
+        intro k hk
+        subst hk
+        simp only [Bool.and_eq_true] at helse
+        exact helse.1
+      have hin := scan_ifInner body.flatten elifs.flatten kwElse elseBody.flatten
+        (fun off => elifAbs off elifs) hElse hb he hel
+      simp only [Stmt.flatten]
+      exact scan_block_stmt .kIf _ _ _ _ _ _ hIf hEnd (by decide) hin
+        (fun h => ifMids_other h _ _ _ _)
+  theorem scanBlock (K : Kind) (is : List Instruction) :
+      (b : Block) → b.wf = true → b.noFn = true → ScanP K is b.flatten (fun _ => [])
+    | .nil, _, _ => by
+      simp only [Block.flatten]
+      exact scan_nil K is
+    | .cons s rest, hw, hn => by
+      simp only [Block.wf, Bool.and_eq_true] at hw
+      simp only [Block.noFn, Bool.and_eq_true] at hn
+      simp only [Block.flatten]
+      exact (scan_append (scanStmt K is s hw.1 hn.1) (scanBlock K is rest hw.2 hn.2)).congr
+        (by intro off; simp)
+  theorem scanElifs (K : Kind) (is : List Instruction) :
+      (e : Elifs) → e.wf = true → e.noFn = true →
+        ScanP K is e.flatten (fun off => midK K (elifAbs off e))
+    | .nil, _, _ => by
+      simp only [Elifs.flatten]
+      exact (scan_nil K is).congr (by intro off; simp [elifAbs, midK_nil])
+    | .cons kw cond body rest, hw, hn => by
+      simp only [Elifs.wf, Bool.and_eq_true] at hw
+      simp only [Elifs.noFn, Bool.and_eq_true] at hn
+      simp only [Elifs.flatten]
+      have h1 : ScanP K is ([mkInstr none kw cond] ++ (body.flatten ++ rest.flatten)) _ :=
+        scan_append (scan_midword none kw cond (by simp [hw.1.1]))
+          (scan_append (scanBlock K is body hw.1.2 hn.1) (scanElifs K is rest hw.2 hn.2))
+      refine h1.congr ?_
+      intro off
+      simp [elifAbs, ← midK_append, Nat.add_assoc]
+end
+
+
 end Duck
